@@ -68,15 +68,40 @@ Print Assumptions C08_source_failure_prefix.
 
 (** Destination faults: for every fault plan, if every Write and the Close
     reported success then no downstream write failed and the destination holds
-    the complete armor; once an operation failed, Close fails too. *)
+    the complete armor; a downstream failure is reported by some operation.
+
+    Third conjunct.  The statement first proposed here,
+      [Exists (fun b => b = false) oks -> last oks true = false]
+    ("once an operation failed, Close fails too"), is FALSE of the model — and
+    of armoredWriter.Write, which returns before setting [started] when the
+    header write fails, so that the next operation retries the header: see
+    [C08_write_faults_close_refuted].  What holds: if the first [h] downstream
+    calls fail and call [h] succeeds (every plan has such an [h]), then the
+    first [h] operations fail (each is a failed header write that changed
+    nothing), and any failure from operation [h] on is final: Close fails. *)
 Theorem C08_write_faults :
   forall (ws : list bytes) (plan : list bool) (a : awstate) (k : sink) (oks : list bool),
     aw_run sink sink_write aw_init (empty_sink plan) ws [] = (a, k, oks) ->
     (Forall (fun b => b = true) oks -> k_fails k = 0 /\ k_acc k = armor_bytes (concat ws)) /\
     (k_fails k > 0 -> exists i, nth i oks true = false) /\
-    (Exists (fun b => b = false) oks -> last oks true = false).
+    (forall h, (forall i, i < h -> nth i plan false = true) -> nth h plan false = false ->
+       Forall (fun b => b = false) (firstn h oks) /\
+       (Exists (fun b => b = false) (skipn h oks) -> last oks true = false)).
 Proof. exact armor_write_faults. Qed.
 Print Assumptions C08_write_faults.
+
+(** The refutation of the unguarded third conjunct: two one-byte Writes, the
+    very first downstream call fails.  The first Write reports the failure,
+    the second Write and Close succeed, and the destination holds a complete
+    armor that de-armors cleanly to the second Write's byte only. *)
+Theorem C08_write_faults_close_refuted :
+  exists (ws : list bytes) (plan : list bool) (a : awstate) (k : sink) (oks : list bool),
+    aw_run sink sink_write aw_init (empty_sink plan) ws [] = (a, k, oks) /\
+    ws = [[x41]; [x42]] /\ plan = [true] /\ oks = [false; true; true] /\
+    Exists (fun b => b = false) oks /\ last oks true = true /\
+    dearmor (k_acc k) = Ok ([x42], CleanEOF).
+Proof. exact armor_write_faults_close_refuted. Qed.
+Print Assumptions C08_write_faults_close_refuted.
 
 (** Non-vacuity / regression witnesses (the four pre-fix findings):
     - no writes at all still yields BEGIN and END lines (F8);
